@@ -176,8 +176,18 @@ def scan_rules(ctx, P):
                 # min(KEY(v) for v in COLL) then [v for v in COLL if KEY(v) == best]: minimal by construction over the whole collection
                 for q in ctx._anchor_wheres(P.func_name(fn)):
                     minfilters.setdefault(q, []).append(mf)
+    loose = {}
+    for ci, fn in P.all_functions():
+        for bname, cst in scans.loose_minfilters(fn):
+            for q in ctx._anchor_wheres(P.func_name(fn)):
+                loose.setdefault(q, []).append((bname, cst))
+    for q, lst in sorted(loose.items()):
+        for bname, cst in lst:
+            ctx.violation(ob, "R6.argmin", q, unparse(cst)[:100], "candidates-not-the-minimisers",
+                          "the candidates are selected by a condition on `%s` that is not equality with the key: elements that do not attain the minimum "
+                          "(a later date, a longer queue) can be chosen" % bname, loc(cst))
     for q, spec in SCAN_TABLE.items():
-        if q not in found and q not in minfilters:
+        if q not in found and q not in minfilters and q not in loose:
             ctx.unrecognised("SCAN: no arg-min scan recognised in %s" % q)
     for q, lst in sorted(minfilters.items()):
         spec = SCAN_TABLE.get(q)
